@@ -1107,12 +1107,47 @@ func TestC17(t *testing.T) {
 	go func() {
 		t := time.NewTimer(time.Duration(vkit.Scale(11, 70)) * time.Minute)
 		defer t.Stop()
-		select {
-		case <-finished:
-		case <-t.C:
-			run.Inconclusive("outer watchdog fired; last completed step: " + lastLap.Load().(string))
-			run.Finish()
-			os.Exit(2)
+		tick := time.NewTicker(15 * time.Second)
+		defer tick.Stop()
+		lastEvals, quiet := int64(-1), 0
+		for {
+			select {
+			case <-finished:
+				return
+			case <-tick.C:
+				// no evaluation for 45s: is the process in a state that cannot change by itself, with
+				// goroutines blocked on the pool's / queue's / manager's locks? Then it is a deadlock, decided by
+				// the stable-state oracle (not by the clock: a slow machine keeps goroutines runnable).
+				if e := run.Evals(); e != lastEvals {
+					lastEvals, quiet = e, 0
+					continue
+				}
+				if quiet++; quiet < 3 {
+					continue
+				}
+				never := make(chan struct{})
+				v, dump := vkit.WaitStable(never, vkit.StableOpts{Polls: 40, Every: 50 * time.Millisecond, MaxWait: 20 * time.Second})
+				if v != "hang" {
+					continue
+				}
+				var locked []string
+				for _, f := range vkit.RepoFrames(dump) {
+					if strings.Contains(f, "Mutex") && strings.Contains(f, "peers.") {
+						locked = append(locked, f)
+					}
+				}
+				if len(locked) == 0 {
+					continue
+				}
+				run.Violation("C17 deadlock: operations on the peer pool never return (stable state, goroutines blocked on its locks): "+strings.Join(locked, " | "),
+					map[string]any{"phase_after": lastLap.Load().(string), "dump": tailStr(dump, 8000)})
+				run.Finish()
+				os.Exit(1)
+			case <-t.C:
+				run.Inconclusive("outer watchdog fired; last completed step: " + lastLap.Load().(string))
+				run.Finish()
+				os.Exit(2)
+			}
 		}
 	}()
 	if want("S") {
@@ -1154,7 +1189,15 @@ func TestC17(t *testing.T) {
 		for i := 0; i < vkit.Scale(12, 96); i++ {
 			c.wakeScenario(r.SplitN("wake", i), i)
 		}
+		// every exported read of the pool concurrently with every writer: anything that does not return is a
+		// deadlock (added after seeded change C17-a, a re-entrant read lock in peers(), was missed)
+		for i := 0; i < vkit.Scale(24, 200); i++ {
+			if !c.readersVsWriters(r.SplitN("rvw", i), i) {
+				break
+			}
+		}
 		lap("F-run")
+		run.Require("readers-vs-writers/scenarios", 10)
 		run.Require("forced/windows", 10)
 		run.Require("wake/delivered", 20)
 	}
